@@ -22,6 +22,9 @@ checks={
  "C07":dict(text=LVL+"scenarios of up to four client goroutines on Queue/Deque/Distributor run under a symbolic scheduler (explicit mutex/cond/channel/context models, sleep-set reduction, preemption bound); the wake-up clauses are assertions at quiescence, item values stay symbolic",
             note="<=2 waiters x <=2 producers (+ library helper goroutines), preemption bound 2 (Queue) / 1 (Deque) quick, 3 / 2 thorough; 'promptly' = at quiescence under weak fairness; spinning wait loops are treated as blocked (no-progress cycle detection); sleep sets are applied under the preemption bound (bound applies to the representative explored); trusted: sync/cond/channel/context models of DESIGN §3.2",
             ref="§5 C07", tech="SSA symbolic execution with symbolic scheduler (bounded, sleep sets) + SMT for data"),
+ "C14":dict(text=LVL+"counter arithmetic of <=3 Add(num) calls with num symbolic (panic iff negative, unchanged on panic, Num = sum); scenarios of <=2 (3) workers started through Launch / Operation.Add / DoTimes / manual Add-Done and <=2 (3) concurrent waiters, cancellation of a waiter, reuse over two rounds, all under the symbolic scheduler; assertions at quiescence and by the waiter itself right after Wait returns",
+            note="preemption bound 2 quick / 3 thorough (reuse 1 / 2); num in [-2^61,2^61] (counter overflow outside); 'always returns' = at quiescence under weak fairness; trusted: sync/cond/channel/context models of DESIGN §3.2",
+            ref="§5 C14", tech="SSA symbolic execution with symbolic scheduler (bounded, sleep sets) + SMT for the counter arithmetic"),
 }
 NA={}
 m={"version":1,
